@@ -9,7 +9,7 @@ impl AdjacencyMap {
         forall|k: usize| #[trigger] self.arcs@.contains_key(k) == (k < self.arcs@.len())
     }
 
-    /*@fn impl=AdjacencyMap trait=Converse name=converse props=C13 clauseprops=C11
+    /*@fn impl=AdjacencyMap trait=Converse name=converse props=C13 clauseprops=C11 wrap=enumerate
     requires
         self.wf(),
     ensures
@@ -99,10 +99,9 @@ impl AdjacencyMap {
                 lemma_collect_positional(rem, m, vec@);
             }
         }
-    @manual `arcs: vec.into_iter().enumerate().collect(),` => `arcs: vx_enumerate(vec.into_iter()).collect(),` :: Iterator::enumerate is a provided trait method, Verus cannot attach a contract to it: the call goes through the wrapper vx_enumerate (prelude/c13left_std.rs) whose body is exactly `it.enumerate()`
     @*/
 
-    /*@fn impl=AdjacencyMap trait=Converse name=converse rename=converse_contiguous props=C11,C13
+    /*@fn impl=AdjacencyMap trait=Converse name=converse rename=converse_contiguous props=C11,C13 wrap=enumerate
     requires
         self.wf(),
         self.contiguous(),
@@ -200,7 +199,6 @@ impl AdjacencyMap {
                 lemma_converse_result(*self, q, vec@);
             }
         }
-    @manual `arcs: vec.into_iter().enumerate().collect(),` => `arcs: vx_enumerate(vec.into_iter()).collect(),` :: Iterator::enumerate is a provided trait method, Verus cannot attach a contract to it: the call goes through the wrapper vx_enumerate (prelude/c13left_std.rs) whose body is exactly `it.enumerate()`
     @*/
 }
 
@@ -333,14 +331,13 @@ impl AdjacencyMap {
     /// number of arcs
     spec fn arc_count(&self) -> int { self.rows_sum(self.ord()) }
 
-    /*@fn impl=AdjacencyMap trait=Vertices name=vertices props=C01,C13
+    /*@fn impl=AdjacencyMap trait=Vertices name=vertices props=C01,C13 wrap=copied
     ensures
         r.obeys_prophetic_iter_laws(),
         r.decrease() is Some,
         is_key_seq(self.arcs@.dom(), self.key_seq()),
         self.key_seq().len() == self.ord(),
         r.remaining() == self.key_seq(),
-    @manual `self.arcs.keys().copied()` => `vx_copied(self.arcs.keys())` :: Iterator::copied is a provided trait method, Verus cannot attach a contract to it: the call goes through the wrapper vx_copied (prelude/c13left_std.rs) whose body is exactly `it.copied()`
     @fn_start
         broadcast use vstd::laws_cmp::group_laws_cmp;
         proof {
@@ -354,12 +351,11 @@ impl AdjacencyMap {
         }
     @*/
 
-    /*@fn impl=AdjacencyMap trait=Size name=size props=C12,C13
+    /*@fn impl=AdjacencyMap trait=Size name=size props=C12,C13 wrap=sum
     ensures
         is_key_seq(self.arcs@.dom(), self.key_seq()),
         self.key_seq().len() == self.ord(),
         self.arc_count() <= usize::MAX ==> r == self.arc_count(),
-    @manual `self.arcs.values().map(BTreeSet::len).sum()` => `vx_sum(self.arcs.values().map(BTreeSet::len))` :: Iterator::sum is a provided trait method, Verus cannot attach a contract to it: the call goes through the wrapper vx_sum (prelude/c13left_std.rs) whose body is exactly `it.sum()`
     @fn_start
         broadcast use vstd::laws_cmp::group_laws_cmp;
         broadcast use vstd::std_specs::iter::group_iter_axioms;
@@ -788,7 +784,7 @@ spec fn map_tournament(g: AdjacencyMap) -> bool {
 }
 
 impl AdjacencyMap {
-    /*@fn impl=AdjacencyMap trait=Complement name=complement props=C13 clauseprops=C11
+    /*@fn impl=AdjacencyMap trait=Complement name=complement props=C13 clauseprops=C11 wrap=copied
     requires
         self.wf(),
     ensures
@@ -799,8 +795,6 @@ impl AdjacencyMap {
     ensures
         q.0 == *p.0,
         q.1@ == vertices@.difference(p.1@).remove(*p.0),
-    @manual `let mut out_neighbors = vertices` => `let mut out_neighbors = vx_copied(vertices` :: Iterator::copied is a provided trait method: the call `X.copied()` goes through the wrapper `vx_copied(X)` (prelude/c13left_std.rs), part 1 of 2 (opening)
-    @manual `.copied()` => `)` :: part 2 of 2 (closing) of the `X.copied()` -> `vx_copied(X)` replacement
     @fn_start
         broadcast use vstd::laws_cmp::group_laws_cmp;
         broadcast use vstd::std_specs::iter::group_iter_axioms;
@@ -825,7 +819,7 @@ impl AdjacencyMap {
         }
     @*/
 
-    /*@fn impl=AdjacencyMap trait=Complement name=complement rename=complement_contiguous props=C11,C13
+    /*@fn impl=AdjacencyMap trait=Complement name=complement rename=complement_contiguous props=C11,C13 wrap=copied
     requires
         self.wf(),
         self.contiguous(),
@@ -837,8 +831,6 @@ impl AdjacencyMap {
     ensures
         q.0 == *p.0,
         q.1@ == vertices@.difference(p.1@).remove(*p.0),
-    @manual `let mut out_neighbors = vertices` => `let mut out_neighbors = vx_copied(vertices` :: Iterator::copied is a provided trait method: the call `X.copied()` goes through the wrapper `vx_copied(X)` (prelude/c13left_std.rs), part 1 of 2 (opening)
-    @manual `.copied()` => `)` :: part 2 of 2 (closing) of the `X.copied()` -> `vx_copied(X)` replacement
     @fn_start
         broadcast use vstd::laws_cmp::group_laws_cmp;
         broadcast use vstd::std_specs::iter::group_iter_axioms;
